@@ -1,5 +1,5 @@
 (* Migrate/Extract.v — extraction of the C18 model (ExtrOcamlBasic only) *)
 From Coq Require Import ExtrOcamlBasic ZArith.
-From ZV Require Import Migrate.Model.
+From ZV Require Import Migrate.Model Migrate.Multi.
 Extraction Language OCaml.
-Extraction "model.ml" Z.of_N N.of_nat Nat.add init_state step run isr is_quorum all_ready create_namespace.
+Extraction "model.ml" Z.of_N N.of_nat Nat.add init_state step run isr is_quorum all_ready create_namespace minit mstep mrun.
